@@ -140,6 +140,11 @@ theorem Good.lift {α} (x : Except Err α) : Good (fun _ => True) (IM.lift x) :=
   · exact Good.thr _
   · exact Good.ret _ trivial
 
+theorem Good.lift' {α} (x : Except Err α) : Good (fun a => x = .ok a) (IM.lift x) := by
+  cases x
+  · exact Good.thr _
+  · exact Good.ret _ rfl
+
 theorem Good.single (v : Seq) : Good (fun _ => True) (IM.single v) := by
   unfold IM.single; split
   · exact Good.ret _ trivial
@@ -167,6 +172,34 @@ theorem Good.getObj (a : Nat) : Good ObjOK (IM.getObj a) := by
     simp only [Except.ok.injEq, Prod.mk.injEq] at he
     rw [← he.1, ← he.2]
     exact ⟨hh, hh o (List.mem_of_getElem? h)⟩
+
+theorem convPat_length : ∀ (ts : List STy) (p p' : List (Option Seq)), convPat ts p = .ok p' →
+    p'.length = p.length
+  | [], p, p', h => by cases p <;> simp [convPat, pure, Except.pure] at h <;> simp [← h]
+  | t :: ts, [], p', h => by simp [convPat, pure, Except.pure] at h; simp [← h]
+  | t :: ts, none :: as, p', h => by
+    simp only [convPat, bind, Except.bind] at h
+    cases hr : convPat ts as with
+    | error e => simp [hr] at h
+    | ok r =>
+      simp only [hr, pure, Except.pure, Except.ok.injEq] at h
+      simp [← h, convPat_length ts as r hr]
+  | t :: ts, some a :: as, p', h => by
+    simp only [convPat, bind, Except.bind] at h
+    cases ha : convSeq t a with
+    | error e => simp [ha] at h
+    | ok a' =>
+      cases hr : convPat ts as with
+      | error e => simp [ha, hr] at h
+      | ok r =>
+        simp only [ha, hr, pure, Except.pure, Except.ok.injEq] at h
+        simp [← h, convPat_length ts as r hr]
+
+theorem sigPat_length (sg : Option Sig) (p p' : List (Option Seq)) (h : sigPat sg p = .ok p') :
+    p'.length = p.length := by
+  cases sg with
+  | none => simp only [sigPat, Except.ok.injEq] at h; rw [← h]
+  | some sg => exact convPat_length sg.1 p p' h
 
 theorem refill_length : ∀ (old new : List (Option Seq)), new.length = holes old →
     (refill old new).length = old.length
@@ -234,12 +267,18 @@ theorem g_callFn (c : ICtx) (D : Env) (a : Nat) (args : List Seq) :
           have := ho.2 pat hf; rw [hc] at this; exact this
         apply Good.bnd (Good.flag _ rfl (by simp [hp])); intro _ _
         rw [he1]
-        exact g_runBody cfg hl hx ev hev c D body _ e o.lex he2
+        apply Good.bnd (Good.lift _); intro conv _
+        apply Good.bnd (g_runBody cfg hl hx ev hev c D body _ e o.lex he2); intro r hr
+        apply Good.bnd (Good.lift _); intro v _
+        exact Good.ret _ hr
       | none =>
         simp only
         split
         · rw [he1]
-          exact g_runBody cfg hl hx ev hev c D body _ e o.lex he2
+          apply Good.bnd (Good.lift _); intro conv _
+          apply Good.bnd (g_runBody cfg hl hx ev hev c D body _ e o.lex he2); intro r hr
+          apply Good.bnd (Good.lift _); intro v _
+          exact Good.ret _ hr
         · exact Good.thr _
     · exact Good.thr _
 
@@ -280,11 +319,14 @@ theorem g_partialApply (c : ICtx) (D : Env) (hD : EnvEq D c.lex) (a : Nat) (args
     apply Good.bnd (g_currentVars cfg hs o); intro vars hv
     subst hv
     apply Good.bnd (g_evalArgs ev hev c args D hD); intro r hr
+    apply Good.bnd (Good.lift' _); intro pat' hpat'
+    have hlen := sigPat_length _ _ _ hpat'
     apply Good.bnd (Good.alloc _ ?_); intro n _
     · exact Good.ret _ hr.1
     · refine ⟨fun ps body hcode => ho.1 ps body hcode, fun pat hpat => ?_⟩
       simp only [Option.some.injEq] at hpat
       subst hpat
+      rw [hlen]
       cases hf : o.fixed with
       | none =>
         simp only
@@ -493,6 +535,10 @@ theorem g_step (e : Expr) (c : ICtx) (D : Env) (hD : EnvEq D c.lex) :
     apply Good.bnd (hev b _ _ (hD.set x xv.1)); intro r _
     exact Good.ret _ rfl
   | fnE t ps body =>
+    simp only [step, hs, Bool.false_eq_true, if_false]
+    apply Good.bnd (Good.alloc _ ⟨fun ps' body' _ => ⟨D, rfl, hD⟩, fun pat hp => by simp at hp⟩); intro n _
+    exact Good.ret _ rfl
+  | tfnE t ps tys rt body =>
     simp only [step, hs, Bool.false_eq_true, if_false]
     apply Good.bnd (Good.alloc _ ⟨fun ps' body' _ => ⟨D, rfl, hD⟩, fun pat hp => by simp at hp⟩); intro n _
     exact Good.ret _ rfl
